@@ -93,6 +93,27 @@ def run(ctx):
             v = x.commutes_with(y)
             add('majorana_commutes_with', '(Bool.eqb %s (qcomm_zero (mjw0 %s) (mjw0 %s)))' % (cbool(v), coq_mop(x.terms), coq_mop(y.terms)),
                 {'call': 'MajoranaOperator.commutes_with (multi-term)', 'a': repr(x.terms), 'b': repr(y.terms), 'returned': v}, key=(repr(x.terms), repr(y.terms)))
+    # operators that commute although their terms do not commute pairwise: an operator with itself, with a
+    # polynomial in itself, the total number operator with number-conserving hops
+    for i in range(N(40, 300)):
+        k = rng.random()
+        if k < 0.6:
+            x = of.MajoranaOperator()
+            for _ in range(rng.randint(2, 4)):
+                x = x + of.MajoranaOperator(tuple(sorted(rng.sample(range(5), rng.randint(1, 3)))), float(rng.choice([1, -1, 2, 0.5])) * rng.choice([1, 1j]))
+            y = rng.choice([lambda: x, lambda: x * x + x, lambda: x * x * 0.5 + of.MajoranaOperator((), 2.0), lambda: x + of.MajoranaOperator((), 1.0)])()
+        else:
+            nm = rng.choice([2, 3])
+            x = of.MajoranaOperator()
+            for j in range(nm): x = x + of.MajoranaOperator((2 * j, 2 * j + 1), -0.5j)
+            p_, q_ = rng.sample(range(nm), 2); p_, q_ = min(p_, q_), max(p_, q_)
+            y = of.MajoranaOperator((2 * p_, 2 * q_ + 1), 0.5j) + of.MajoranaOperator((2 * p_ + 1, 2 * q_), -0.5j)
+            if rng.random() < 0.3: y = y + of.MajoranaOperator((2 * p_,), 1.0)      # breaks number conservation
+        if len(x.terms) * len(y.terms) > 60: continue
+        for a_, b_ in ((x, y), (y, x)):
+            v = a_.commutes_with(b_)
+            add('majorana_commutes_with_nonpairwise', '(Bool.eqb %s (qcomm_zero (mjw0 %s) (mjw0 %s)))' % (cbool(v), coq_mop(a_.terms), coq_mop(b_.terms)),
+                {'call': 'MajoranaOperator.commutes_with (multi-term)', 'a': repr(a_.terms), 'b': repr(b_.terms), 'returned': v}, key=(repr(a_.terms), repr(b_.terms)))
     # ---- structural predicates
     facs = [(j, a) for j in range(3) for a in (1, 0)]
     words = [w for L in range(0, 4) for w in itertools.product(facs, repeat=L)]
@@ -130,6 +151,24 @@ def run(ctx):
             v = of.is_hermitian(f)
             add('is_hermitian_fermion', '(Bool.eqb %s (fermi_equiv %s (hc_map %s)))' % (cbool(v), coq_fop(f), coq_fop(f)),
                 {'call': 'is_hermitian(FermionOperator)', 'terms': {repr(t): repr(c) for t, c in f.terms.items()}, 'returned': v}, key=repr(f.terms))
+        # bosonic operators: Hermitian modulo [b, b^] = 1 although spelled asymmetrically (A + A^dagger with one half
+        # normal ordered, b b^ versus b^ b + 1), judged on the Bargmann-Fock action of degree <= 4
+        if i % 3 == 0:
+            bt = {}
+            for _ in range(rng.randint(1, 2)):
+                L = rng.choice([1, 2, 2, 3])
+                bt[tuple((rng.randrange(2), rng.randint(0, 1)) for _ in range(L))] = dyc(rng)
+            A_ = of.BosonOperator()
+            for t, c in bt.items(): A_ += of.BosonOperator(t, c)
+            k = rng.random()
+            if k < 0.4: B_ = of.normal_ordered(A_) + of.hermitian_conjugated(A_)
+            elif k < 0.6: B_ = A_ + of.hermitian_conjugated(A_)
+            elif k < 0.8: B_ = of.BosonOperator('0 0^ 0^ 0', float(dy(rng) or 1.0)) + of.normal_ordered(A_) + of.hermitian_conjugated(A_)
+            else: B_ = A_
+            if exact_terms_ok(B_.terms) and B_.terms:
+                v = of.is_hermitian(B_)
+                add('is_hermitian_boson', '(Bool.eqb %s (bose_equiv_on bapply1 2 4 %s (hc_map %s)))' % (cbool(v), coq_fop_terms(B_.terms), coq_fop_terms(B_.terms)),
+                    {'call': 'is_hermitian(BosonOperator)', 'terms': {repr(t): repr(c) for t, c in B_.terms.items()}, 'returned': v}, key=repr(B_.terms))
         q = mk_qubit(of, rand_qubit_terms(rng, 4, rng.randint(0, 4), real=rng.random() < 0.6))
         v = of.is_hermitian(q)
         add('is_hermitian_qubit', '(Bool.eqb %s (dict_eqb pfactor pfeqb (hc_qubit %s) %s))' % (cbool(v), coq_qop(q), coq_qop(q)), {'call': 'is_hermitian(QubitOperator)', 'terms': repr(q.terms), 'returned': v}, key=repr(q.terms))
